@@ -115,6 +115,14 @@ class Check(PropertyCheck):
                     t = t * r.range(2, 40)
                 reqs.append(("POST", "/", t.encode("utf-8"), "utf8"))
                 posted.append(t.encode("utf-8"))
+            elif k == 5 and r.chance(1, 2):
+                # long rows of multi-byte characters behind 0..3 one-byte characters: whatever fixed byte offset a server
+                # cuts, counts or buffers at (64, 100, 120, 128, 255, 256, 1024, 4096 …) falls inside a character for some of them
+                ch = r.choice(["\u2500", "\u00e9", "\U0001f600", "\u4e00", "\u2550"])
+                pre = r.choice(["", " ", "  ", "   ", "a", "ab"])
+                row = pre + ch * r.choice([45, 70, 130, 300, 1100, 1400])
+                body = r.choice([row, "\n\n" + row + "\n" + row, pre + "\u250c" + "\u2500" * r.choice([58, 90, 400]) + "\u2510\n" + pre + "\u2502 x"])
+                reqs.append(("POST", "/", body.encode("utf-8"), "utf8"))
             elif k == 5:
                 reqs.append(("POST", "/", self.rng.choice([b"", "\ufeff".encode(), "\ufeff+--+\n|  |\n+--+\n".encode(),
                                                          ("\u200b" + gen.zoo(r)).encode(), gen.zoo(r, crlf=True).encode(),
